@@ -12,6 +12,7 @@ def incrTotal (k : Nat) : List Cmd → Int
 def Cmd.clobbers (k : Nat) : Cmd → Bool
   | .set k' _ => k' == k
   | .delete k' => k' == k
+  | .setx k' _ _ => k' == k
   | _ => false
 
 /-- writes `k` at all -/
@@ -19,6 +20,7 @@ def Cmd.writes (k : Nat) : Cmd → Bool
   | .set k' _ => k' == k
   | .delete k' => k' == k
   | .incr k' _ => k' == k
+  | .setx k' _ _ => k' == k
   | _ => false
 
 /-- `k` is a pure counter for this task: transactions only `incr` it, tasks outside a transaction do not write it -/
@@ -30,6 +32,7 @@ def Task.rem (t : Task) : List Cmd :=
   match t.pc with
   | .seedGet k n => .incr k n :: t.prog
   | .expGet k => .expire k :: t.prog
+  | .existsGet k v e => .setx k v e :: t.prog
   | .direct c => c :: t.prog
   | _ => t.prog
 
@@ -88,6 +91,16 @@ structure CI (k : Nat) (S : Int) (p0 : List Cmd) (t : Task) : Prop where
   txpc : t.isTx = true → t.ctx = false → t.pc = .start
   commitp : (t.pc = .commitDel ∨ t.pc = .commitSet) → t.prog = []
   eseed : t.pc = .expGet k → t.ov.get k = none ∧ lockKeyOf t.mode k ∈ t.locks
+
+theorem CBody_setxApply {k : Nat} {S T0 : Int} {rem : List Cmd} {t : Task} (h : CBody k S T0 rem t)
+    {k' : Nat} (hne : k' ≠ k) (v : Int) (e p : Bool) : CBody k S T0 rem (setxApply t k' v e p) := by
+  unfold setxApply
+  split
+  · refine ⟨h.noclob, ?_, ?_, ?_⟩
+    · simp [h.nodel]
+    · intro v' hv; simp only [AL.get_put, hne, if_false] at hv; exact h.some_ v' hv
+    · intro hv; simp only [AL.get_put, hne, if_false] at hv; exact h.none_ hv
+  · exact ⟨h.noclob, h.nodel, h.some_, h.none_⟩
 
 theorem CBody_localCmd {k : Nat} {S T0 : Int} {c : Cmd} {rest : List Cmd} {t t' : Task}
     (h : CBody k S T0 (c :: rest) t) (hl : localCmd t c = some t') : CBody k S T0 rest t' := by
@@ -155,6 +168,16 @@ theorem CBody_localCmd {k : Nat} {S T0 : Int} {c : Cmd} {rest : List Cmd} {t t' 
       · split at hl <;> simp at hl
         subst hl
         exact ⟨hrest, h.nodel, fun v' hv => by simpa [incrTotal] using h.some_ v' hv, fun hv => by simpa [incrTotal] using h.none_ hv⟩
+    · simp at hl
+  case setx k' v e =>
+    have hne : k' ≠ k := by simpa [Cmd.clobbers] using hc
+    have h' : CBody k S T0 rest t :=
+      ⟨hrest, h.nodel, fun v' hv => by simpa [incrTotal] using h.some_ v' hv, fun hv => by simpa [incrTotal] using h.none_ hv⟩
+    split at hl
+    · split at hl
+      · simp at hl; subst hl; exact CBody_setxApply h' hne _ _ _
+      · split at hl <;> simp at hl
+        subst hl; exact CBody_setxApply h' hne _ _ _
     · simp at hl
   case sleep d => simp at hl
   case raise => simp at hl
@@ -264,6 +287,14 @@ theorem CPark_settle {k : Nat} {S T0 : Int} (now : Nat) (prog : List Cmd) (t : T
             unfold holds at this
             simp [hm] at this
             simpa using this
+      · unfold lockOrFail; split
+        · exact CPark_abort hc _ (by simp)
+        · refine ⟨hc, ?_, ?_, ?_, ?_, ?_, ?_⟩ <;> simp [Task.active, Task.committed, Task.rem]
+          exact ⟨h.noclob, h.nodel, h.some_, h.none_⟩
+    case setx k' v e =>
+      split
+      · refine ⟨hc, ?_, ?_, ?_, ?_, ?_, ?_⟩ <;> simp [Task.active, Task.committed, Task.rem]
+        exact ⟨h.noclob, h.nodel, h.some_, h.none_⟩
       · unfold lockOrFail; split
         · exact CPark_abort hc _ (by simp)
         · refine ⟨hc, ?_, ?_, ?_, ?_, ?_, ?_⟩ <;> simp [Task.active, Task.committed, Task.rem]
@@ -515,6 +546,22 @@ theorem counter_taskStep {k : Nat} {p0 : List Cmd} {S : Int} {t : Task} (hti : t
         · simp [hk] at hv
         · simp only [hk, if_false] at hv
           simpa [incrTotal] using hb.none_ hv
+  case existsGet k' v e =>
+    have hc := TI.ctx_of_pc hti (by simp [hpc, PC.plainOk])
+    have htx := (hti.ctx_tx hc)
+    have hb := hci.body hc (by simp [Task.active, hpc])
+    have hrem : t.rem = .setx k' v e :: t.prog := by simp [Task.rem, hpc]
+    rw [hrem] at hb
+    have hne : k' ≠ k := by simpa [Cmd.clobbers] using hb.noclob _ List.mem_cons_self
+    rw [taskStep_existsGet _ _ _ _ _ hpc]
+    have f := Frame_settle_setx now t k' v e (store k').isSome (store k')
+    have g := setxApply_frame { t with reads := t.reads ++ [store k'] } k' v e (store k').isSome
+    refine CStep_of_CPark hS ?_ (f.isTx.trans htx) (by simp [Task.committed, hpc]) f.isTx f.mode
+    refine CPark_settle now _ _ (g.2.2.2.2.1.trans hc) (by rw [g.2.1]; exact hmf htx) ?_
+    rw [g.2.2.2.2.2.2.2.2.1]
+    refine CBody_setxApply (t := { t with reads := t.reads ++ [store k'] }) ?_ hne _ _ _
+    exact ⟨fun c hc' => hb.noclob c (List.mem_cons_of_mem _ hc'), hb.nodel,
+      fun v' hv => by simpa [incrTotal] using hb.some_ v' hv, fun hv => by simpa [incrTotal] using hb.none_ hv⟩
   case direct c =>
     have hcf := TI.noctx_of_pc hti (by simp [hpc, PC.txOk])
     have hntx : t.isTx = false := by
@@ -544,6 +591,10 @@ theorem counter_taskStep {k : Nat} {p0 : List Cmd} {S : Int} {t : Task} (hti : t
       exact CStep_plain (by simp [Mut.apply, hne, hS]) hTI' hntx (plain_settle now _ _ hcf hrest) f.isTx f.mode
     case expire k' =>
       exact CStep_plain hS hTI' hntx (plain_settle now _ _ hcf hrest) (Frame_settle _ _ _).isTx (Frame_settle _ _ _).mode
+    case setx k' v e =>
+      have hne : k ≠ k' := by simp [Cmd.writes] at hcw; exact fun h => hcw h.symm
+      exact CStep_plain (by dsimp only; split <;> simp [Mut.apply, hne, hS]) hTI' hntx (plain_settle now _ _ hcf hrest)
+        (Frame_settle _ _ _).isTx (Frame_settle _ _ _).mode
     all_goals exact CStep_same hS hci rfl rfl rfl
   case commitDel =>
     have hc := TI.ctx_of_pc hti (by simp [hpc, PC.plainOk])
